@@ -1164,3 +1164,7 @@ func Vars(ts ...*Term) []*Term {
 	}
 	return out
 }
+
+// eqSelf returns a trivially true constraint mentioning t (so that the
+// solver's model assigns t's variables).
+func (t *Term) eqSelf(b *Builder) *Term { return b.Bool(true) }
